@@ -22,7 +22,7 @@
    checkpoints of every kind, the follower's file is the primary's LOGICAL database - the last
    committed version of a page in the primary's log, else the primary's file. *)
 From Coq Require Import NArith List Bool.
-Require Import LF.Model.PageDB LF.Model.Repl LF.Proofs.ChainProofs LF.Proofs.ReplProofs LF.Proofs.ChecksumProofs LF.Proofs.HistoryProofs LF.Proofs.WalHistoryProofs LF.Proofs.WalCheckpointProofs LF.Proofs.SqlCheckpointProofs LF.Proofs.ApplyHistoryProofs LF.Proofs.ComposeProofs LF.Proofs.FollowProofs LF.Proofs.FollowWalProofs LF.Proofs.FollowGProofs LF.Proofs.SnapshotProofs.
+Require Import LF.Model.PageDB LF.Model.Repl LF.Proofs.ChainProofs LF.Proofs.ReplProofs LF.Proofs.ChecksumProofs LF.Proofs.HistoryProofs LF.Proofs.WalHistoryProofs LF.Proofs.WalCheckpointProofs LF.Proofs.SqlCheckpointProofs LF.Proofs.ApplyHistoryProofs LF.Proofs.ComposeProofs LF.Proofs.FollowProofs LF.Proofs.FollowWalProofs LF.Proofs.FollowGProofs LF.Proofs.JoinerProofs.
 Import ListNotations.
 Local Open Scope N_scope.
 
